@@ -19,12 +19,11 @@
    THEOREM (C04_self_delimiting), not a hypothesis.  Statements only; proofs in Decoder/C04Main.v and the files it imports.
 
    `proved_family r` is true for every report except: `RSgr` (an SGR sequence denotes a face
-   modification, characterised by its meaning: C04_sgr_event), `RXterm` with a modifier mask >= 8
-   (known finding C04-key-mask: C04_key_mask8_refuted) and `RFaceReport` with one of 7/27/39/49
+   modification, characterised by its meaning: C04_sgr_event) and `RFaceReport` with one of 7/27/39/49
    (known finding: C04_face_report_recorded states the recorded behaviour for every well-formed
    parameter string).  Hence the `_partial` suffix of the two headline theorems. *)
 From Coq Require Import List NArith Bool.
-From SNT Require Import Base.Outcome Automata.DfaData Automata.Tokenizer.
+From SNT Require Import Base.Outcome Base.Dec10 Automata.DfaData Automata.Tokenizer.
 From SNT Require Import Render.FaceModel Decoder.SgrRef.
 From SNT Require Import Decoder.EvModel Decoder.Printer Decoder.EvProd Decoder.EvProofs Decoder.EvFamilies2 Decoder.EvXterm Decoder.C04Main.
 From SNT Require Import Gen.ProdDFA Gen.C04Keys.
@@ -66,31 +65,29 @@ Theorem C04_key_table : forall (w rest : list N),
   prod_decode (w ++ rest) = (prod_denote (RLit w) :: fst (prod_decode rest), snd (prod_decode rest)).
 Proof. intros w rest Hl Hs. exact (decode_single _ _ rest (single_literal w Hl Hs)). Qed.
 
-(* 4b. the table names the xterm PC-style / VT220-style sequences as the protocol documents do:
-   cursor / editing / function keys with the modifier masks 0..7 (shift, alt, ctrl), Alt+letter,
-   Alt+digit, Ctrl+letter.  `_upto_mask7`: the documents define every mask below 256 (xterm meta,
-   kitty super / hyper / meta / caps_lock / num_lock) and `wf` admits them, but the library's table
-   stops at 7 -- known finding C04-key-mask, witness C04_key_mask8_refuted *)
-Theorem C04_xterm_keys_upto_mask7 : forall (k : kname) (mods : N) (alt_form : bool) (rest : list N),
-  mods < 8 ->
+(* 4b. the library names the xterm PC-style / VT220-style sequences as the protocol documents do:
+   cursor / editing / function keys with EVERY modifier mask 0..255 (xterm shift / alt / ctrl / meta,
+   kitty super / hyper / meta / caps_lock / num_lock), Alt+letter, Alt+digit, Ctrl+letter.  (`wf`
+   excludes one form only: PC-style F3 with a mask >= 8, whose bytes CSI 1 ; n R are the cursor
+   position report -- it has the VT220-style form CSI 13 ; n ~.)  Masks >= 8 hold since crate fix
+   8f4107f (former known finding C04-key-mask); regression: C04_key_mask8_decodes *)
+Theorem C04_xterm_keys : forall (k : kname) (mods : N) (alt_form : bool) (rest : list N),
   wf decmode_all prod_key_table (RXterm k mods alt_form) = true ->
   prod_decode (print (RXterm k mods alt_form) ++ rest) = (EKey k mods :: fst (prod_decode rest), snd (prod_decode rest)).
 Proof. exact xterm_keys_decode. Qed.
 
-(* (witness of a known finding: a lemma, not counted as an obligation) *)
-Lemma C04_key_mask8_refuted :
-  wf decmode_all prod_key_table (RXterm KUp 8 false) = true
-  /\ print (RXterm KUp 8 false) = [27; 91; 49; 59; 57; 65]
-  /\ fst (prod_decode (print (RXterm KUp 8 false)))
-     = [EKey (KChar 91) 2; EKey (KChar 49) 0; EKey (KChar 59) 0; EKey (KChar 57) 0; EKey (KChar 65) 0].
-Proof. exact xterm_mask8_refuted. Qed.
+Lemma C04_key_mask8_decodes :
+  print (RXterm KUp 8 false) = [27; 91; 49; 59; 57; 65]
+  /\ fst (prod_decode (print (RXterm KUp 8 false))) = [EKey KUp 8]
+  /\ fst (prod_decode (print (RXterm KDelete 133 false))) = [EKey KDelete 133].
+Proof. exact xterm_mask8_decodes. Qed.
 
-(* 4b'. coverage: every entry of the library's table is pinned by the reference encoding
-   (C04_xterm_keys_upto_mask7) except 26 entries whose names are the library's own choice:
-   the six introducers, CSI P..S, and rxvt's CSI 7~ / CSI 8~ with their modified forms *)
+(* 4b'. coverage: every entry of the library's literal table is pinned by the reference encoding
+   (C04_xterm_keys) except 12 entries whose names are the library's own choice: the six
+   introducers, CSI P..S, and rxvt's CSI 7~ / CSI 8~ *)
 Theorem C04_key_table_coverage :
   forallb (fun e => mem_bytes (fst e) xterm_image || mem_bytes (fst e) trusted_names) prod_key_table = true
-  /\ length trusted_names = 26%nat.
+  /\ length trusted_names = 12%nat.
 Proof. exact table_coverage. Qed.
 
 (* 4c. an SGR sequence received as an event: the modification's meaning is the reference SGR
@@ -106,8 +103,9 @@ Theorem C04_self_delimiting : forall r : report,
   proved_family r = true -> prod_wf r = true -> self_delimiting (print r) = true.
 Proof. exact wf_self_delimiting. Qed.
 
-(* 4e. what DA1 denotes: THE strictly increasing list with the elements of the transmitted one *)
-Theorem C04_da_set : forall l : list N,
+(* 4e. what DA1 denotes: THE strictly increasing list with the elements of the transmitted one
+   (a fact about the specification's own `sort_dedup`: a lemma, not counted as an obligation) *)
+Lemma C04_da_set : forall l : list N,
   strictly_increasing (sort_dedup l) = true /\ forall y, In y (sort_dedup l) <-> In y l.
 Proof. exact sort_dedup_spec. Qed.
 
@@ -122,10 +120,17 @@ Lemma C04_face_report_recorded : forall (p rest : list N),
   prod_decode (print (RFaceReport p) ++ rest) = (face_report_recorded p :: fst (prod_decode rest), snd (prod_decode rest)).
 Proof. exact face_report_recorded_decode. Qed.
 
-(* 5. xterm / fixterms modifier convention over the whole table: CSI n ; m ~ and CSI 1 ; m X name
-   the key of the unmodified sequence with modifier mask m - 1 *)
-Theorem C04_key_modifiers : forallb mod_entry_ok prod_key_table = true.
-Proof. exact mod_table_ok. Qed.
+(* 5. xterm / fixterms modifier convention: CSI n ; m ~ and CSI 1 ; m X name the key of the
+   unmodified sequence with modifier mask m - 1 -- for the literal entries that remain in the table
+   (modified F3) and for the parsed matcher (payload decoder 14): every final byte it accepts, every
+   code below 32, every parameter 1..256; a code / final byte without an unmodified table entry is no key *)
+Theorem C04_key_modifiers :
+  forallb mod_entry_ok prod_key_table = true
+  /\ forall f code p : N,
+       In f (126 :: modkey_finals) -> code < 32 -> 1 <= p <= 256 ->
+       ev_payload decmode_codes decstatus_codes 14 ([27; 91] ++ digits code ++ [59] ++ digits p ++ [f])
+       = modkey_expect code p f.
+Proof. exact key_modifiers. Qed.
 
 (* 6. DecMode::from_usize / DecModeStatus::from_usize know every discriminant of their enum, and
    each variant has the number the xterm documents give to the mode of that name (regenerated
@@ -154,14 +159,44 @@ Check C04_concat_partial : forall (rs : list report) (rest : list N),
 
 (* ---- non-vacuity ---- *)
 Definition ex_reports : list report :=
-  [RMouse 85 true 65534 0; RMouse 128 true 0 0; RCursor 0 0; RChar 8364; RLit [27; 91; 49; 53; 59; 54; 126];
+  [RMouse 85 true 65534 0; RMouse 128 true 0 0; RCursor 0 0; RChar 8364; RXterm (KF 5) 5 false;
    RDecMode 2004 1; RKittyKey (KF 35) 255 []; RKittyKey (KChar 97) 1 [Some 65]; RKittyKey (KChar 246) 0 [None; Some 59]; RDevAttrs [62; 1; 2; 6; 2]; RSize 24 80 480 1280;
-   RPaste [104; 105; 226; 130; 172]; RKeyLevel 5; RLit [27; 91; 49; 59; 53; 82]; RXterm (KF 12) 7 false; RXterm KHome 0 true; RColor (TPalette 255) 1 2 15 Rgb1 true EndBEL; RColor TBg 31 2063 4095 Rgb3 false EndST; RColor TFg 33023 0 65535 Rgb4 false EndST; RKittyImage 7 (Some 3) (Some [69; 78; 79; 69; 78; 84]); RTermcapOk [([84; 78], [120; 116; 101; 114; 109]); ([99; 111], [50; 53; 54])] true; RTermcapFail [[82; 71; 66]] false; RFaceReport [48; 59; 49; 59; 52; 58; 51; 59; 51; 56; 58; 50; 58; 58; 49; 58; 50; 58; 51]].
+   RPaste [104; 105; 226; 130; 172]; RKeyLevel 5; RLit [27; 91; 49; 59; 53; 82]; RXterm (KF 12) 7 false; RXterm KHome 0 true; RXterm KLeft 8 false; RXterm KPageDown 255 false; RXterm (KF 3) 64 true; RColor (TPalette 255) 1 2 15 Rgb1 true EndBEL; RColor TBg 31 2063 4095 Rgb3 false EndST; RColor TFg 33023 0 65535 Rgb4 false EndST; RKittyImage 7 (Some 3) (Some [69; 78; 79; 69; 78; 84]); RTermcapOk [([84; 78], [120; 116; 101; 114; 109]); ([99; 111], [50; 53; 54])] true; RTermcapFail [[82; 71; 66]] false; RFaceReport [48; 59; 49; 59; 52; 58; 51; 59; 51; 56; 58; 50; 58; 58; 49; 58; 50; 58; 51]].
 Example C04_nonvacuous :
   forallb (fun r => proved_family r && prod_wf r) ex_reports = true
   /\ map prod_denote ex_reports
      = [EMouse MWheelUp 261 65534 0; ERaw [27; 91; 60; 49; 50; 56; 59; 49; 59; 49; 77]; ECursor 0 0; EKey (KChar 8364) 0; EKey (KF 5) 5; EDecMode 2004 1;
         EKey (KF 35) 255; EKey (KChar 97) 1; EKey (KChar 246) 0; EDevAttrs [1; 2; 6; 62]; ESize 24 80 480 1280; EPaste [104; 105; 226; 130; 172];
-        EKeyLevel 5; EKey (KF 3) 4; EKey (KF 12) 7; EKey KHome 0; EColor (TPalette 255) (RGBA 17 34 255 255); EColor TBg (RGBA 1 128 255 255); EColor TFg (RGBA 128 0 255 255); EKittyImage 7 (Some 3) (Some [69; 78; 79; 69; 78; 84]); ETermcap [([84; 78], Some [120; 116; 101; 114; 109]); ([99; 111], Some [50; 53; 54])]; ETermcap [([82; 71; 66], None)]; EFaceGet (mkFace (Some (RGBA 1 2 3 255)) None 11)]
-  /\ length prod_key_table = 367%nat.
+        EKeyLevel 5; EKey (KF 3) 4; EKey (KF 12) 7; EKey KHome 0; EKey KLeft 8; EKey KPageDown 255; EKey (KF 3) 64; EColor (TPalette 255) (RGBA 17 34 255 255); EColor TBg (RGBA 1 128 255 255); EColor TFg (RGBA 128 0 255 255); EKittyImage 7 (Some 3) (Some [69; 78; 79; 69; 78; 84]); ETermcap [([84; 78], Some [120; 116; 101; 114; 109]); ([99; 111], Some [50; 53; 54])]; ETermcap [([82; 71; 66], None)]; EFaceGet (mkFace (Some (RGBA 1 2 3 255)) None 11)]
+  /\ length prod_key_table = 164%nat.
 Proof. split; [vm_compute; reflexivity|]. split; vm_compute; reflexivity. Qed.
+
+(* the restrictions bite where they should: PC-style F3 with mask 8 is outside wf (it is RCursor 0 8) *)
+Example C04_f3_mask8_not_wf :
+  prod_wf (RXterm (KF 3) 8 false) = false /\ prod_wf (RXterm (KF 3) 8 true) = true
+  /\ prod_wf (RCursor 0 8) = true /\ print (RCursor 0 8) = [27; 91; 49; 59; 57; 82].
+Proof. vm_compute. repeat split; reflexivity. Qed.
+
+(* C04_sgr_event is not vacuous: a well-formed expressible parameter string and its event *)
+Example C04_sgr_event_nonvacuous :
+  let p := [49; 59; 51; 56; 59; 53; 59; 49; 57; 54; 59; 52; 58; 51] in   (* 1;38;5;196;4:3 *)
+  SgrRef.sgr_wf p = true /\ SgrRef.sgr_inexpressible p = false
+  /\ match fst (prod_decode (print (RSgr p))) with [EFaceModify _] => True | _ => False end.
+Proof. vm_compute. repeat split; reflexivity || exact I. Qed.
+
+(* C04_self_delimiting is not vacuous, and the bare ESC-prefixes are really not self-delimiting *)
+Example C04_self_delimiting_nonvacuous :
+  forallb (fun r => self_delimiting (print r)) ex_reports = true
+  /\ self_delimiting [27] = false /\ self_delimiting [27; 91] = false.
+Proof. vm_compute. repeat split; reflexivity. Qed.
+
+(* C04_chunking on a concrete stream cut inside two sequences: the real decode loop, fed the three
+   reads, returns the tokens of the whole stream *)
+Example C04_chunking_nonvacuous :
+  let chunks := [[27; 91; 49]; [59; 57; 65; 27; 91; 60; 48; 59]; [51; 59; 52; 77; 120]] in
+  match feed N tev (d_start event_dfa) (d_delta event_dfa) (d_accepting event_dfa) (d_terminal event_dfa) prod_item
+             20 (init (d_start event_dfa)) chunks with
+  | Ok (ts, _) => map tok_event ts = [EKey KUp 8; EMouse MLeft 256 3 2; EKey (KChar 120) 0]
+  | _ => False
+  end.
+Proof. vm_compute. reflexivity. Qed.
